@@ -253,7 +253,7 @@ func c36Run(dir, typ string, size, seed int, inject string) (log string, childEr
 		args = append(args, "-e", "inject="+inject)
 	}
 	args = append(args, self)
-	ctx, cancel := context.WithTimeout(context.Background(), 60*time.Second)
+	ctx, cancel := context.WithTimeout(context.Background(), 240*time.Second)
 	defer cancel()
 	cmd := exec.CommandContext(ctx, "strace", args...)
 	cmd.Env = append(os.Environ(), "RESTIC_VERIF_HARNESS=C36child",
@@ -274,7 +274,7 @@ func streamC36(h *H) {
 	sizes := []int{0, 1000, 70000, 300001, 17}
 	if h.Thorough() {
 		sizes = []int{0, 1, 2, 100, 4095, 4096, 4097, 65536, 70000, 1 << 20, 1<<20 + 17, 3 << 20}
-		for len(sizes) < 40 {
+		for len(sizes) < 16 {
 			sizes = append(sizes, 1+h.Intn(300000))
 		}
 	}
